@@ -90,9 +90,40 @@ def untied_pairs(p):
             if via is not None and lookup_of(via) == rres:
                 continue  # written through the guard/entry of R itself: one lock span
             if W.kind == "map" and W.name in ("remove_if", "alter") and rres in atoms(W.extra.get("pred")):
-                continue  # re-validated under the lock
+                # re-validated under the lock -- but is the re-validation able to tell a newer version apart?
+                why = weak_revalidation(p, i, j, R, W)
+                if why:
+                    out.append((R, W, why))
+                continue
             out.append((R, W, dep))
     return out
+
+
+TOKENS_UNIQUE = [None]
+
+
+def weak_revalidation(p, i, j, R, W):
+    """A removal that re-validates an earlier read must compare a witness that differs for every newer version
+    of the item: the store timestamp (a newer version of an *expired* item is stamped later), or the cas token
+    provided every stored token comes from the global counter (C02.R3).  Returns a reason string if it does not."""
+    stored = W.extra.get("stored")
+    rres = R.extra.get("result")
+    if stored is None:
+        return None
+    conds = [c for c, truth, _s, at in p.state.pc if i < at and truth is True] + [W.extra.get("pred")]
+    fields = set()
+    for c in conds:
+        for a in atoms(c):
+            if isinstance(a, tuple) and a[0] == "cmp" and a[1] == "Eq":
+                for x, y in ((a[2], a[3]), (a[3], a[2])):
+                    if isinstance(x, tuple) and x[:2] == ("field", ("field", stored, "header")) and rres in atoms(y):
+                        if isinstance(y, tuple) and y[0] == "field" and y[2] == x[2]:
+                            fields.add(x[2])
+    if "timestamp" in fields:
+        return None
+    if "cas" in fields and TOKENS_UNIQUE[0]:
+        return None
+    return "the removal is re-validated under the lock only by comparing %s of the stored record with the record that was judged; that does not tell a newer version apart (a CAS-store on an absent key issues the client-chosen token cas+1, so a re-created item can carry the same token): the acknowledged newer store is removed" % (sorted(fields) or "nothing version-specific")
 
 
 def analyse_method(f, body, args, dyn_impl=None):
@@ -103,6 +134,14 @@ def analyse_method(f, body, args, dyn_impl=None):
 def r1(ctx):
     rep = Report("C03.R1", "no check-then-act inside the store: every map write that depends on an earlier read of the same key is under that read's guard or re-validates it under the lock", floor=8)
     f = ctx.facts
+    from rules.c02 import is_counter_token
+
+    uniq = True
+    for sp in storefacts.set_paths(ctx):
+        for w in map_writes(sp):
+            if not is_counter_token(field_of(w["value"], "header", "cas")):
+                uniq = False
+    TOKENS_UNIQUE[0] = uniq
     subjects = []
     for meth, trait, args in STORE_METHODS:
         subjects.append(("MemoryStore::" + meth, f.one(ms(meth, trait)), args, None))
